@@ -69,15 +69,23 @@ func (g *Glyph) encodeCharString(defaultWidth, nominalWidth float64) ([]byte, er
 				k = len(stems) / 2
 			}
 			chunk := stems[:2*k]
-			stems = stems[2*k:]
+			var codes [][]byte
 			prev := 0.0
 			for _, x := range chunk {
 				// prev is the edge as the decoder will see it, so that
 				// rounding errors do not accumulate
 				delta := encodeNumber(x - prev)
-				header = append(header, delta.Code)
+				codes = append(codes, delta.Code)
 				prev += delta.Val
 			}
+			if extra+2*k == maxStack && len(codes[2*k-1]) > 5 {
+				// The last delta is written as a sum ("a b add", see
+				// encodeNumber) and temporarily needs one extra stack entry.
+				k--
+				codes = codes[:2*k]
+			}
+			stems = stems[2*k:]
+			header = append(header, codes...)
 
 			canOmitVStem := (i == 1 &&
 				len(stems) == 0 &&
